@@ -24,7 +24,15 @@ fn eval(input: &str) -> String {
             Err(e) => return format!("harness-error {}", e),
         };
         proto::NEGZERO.with(|c| c.set(None));
-        while op == "NZ" || op == "DUP" {
+        proto::SCALE.with(|c| c.set(1.0));
+        while op == "NZ" || op == "DUP" || op == "SC" {
+            if op == "SC" {
+                let k = match t.tok().ok().and_then(|s| s.parse::<i32>().ok()) {
+                    Some(k) if k.abs() <= 200 => k,
+                    _ => return "harness-error bad-SC".to_string(),
+                };
+                proto::SCALE.with(|c| c.set(2f64.powi(k)));
+            }
             if op == "NZ" {
                 // negative-zero variant of the case that follows (see proto::nz)
                 let k = match t.tok().ok().and_then(|s| s.parse::<u64>().ok()) {
@@ -116,6 +124,19 @@ fn dup_variant(input: &str, rng: &mut Rng) -> Option<String> {
     Some(out.join(" "))
 }
 
+/// every numeric token of the case is 0 or has a magnitude in [2^-300, 2^300]: scaling by 2^±60 cannot overflow, underflow
+/// or produce subnormals, also not in the products the algorithms form
+fn scale_safe(input: &str) -> bool {
+    input.split(' ').all(|t| {
+        let v = if let Some(h) = t.strip_prefix('h') {
+            match u64::from_str_radix(h, 16) { Ok(b) if t.len() == 17 => f64::from_bits(b), _ => return true }
+        } else {
+            match t.parse::<i64>() { Ok(i) => i as f64, Err(_) => return t != "nan" && t != "inf" && t != "-inf" }
+        };
+        v == 0.0 || (v.is_finite() && v.abs() >= 2f64.powi(-300) && v.abs() <= 2f64.powi(300))
+    })
+}
+
 fn gen_case(prop: &str, rng: &mut Rng, index: u64) -> String {
     gen_dispatch(prop, rng, index)
 }
@@ -133,6 +154,7 @@ fn main() {
             let nshards: u64 = args[5].parse().unwrap();
             let count: u64 = args[6].parse().unwrap();
             let pn: u64 = prop[1..].parse().unwrap_or(0);
+            let scale_props: Vec<String> = std::env::var("VERIF_SCALE_PROPS").unwrap_or_default().split(',').map(|s| s.to_string()).collect();
             let dup_props: Vec<String> = std::env::var("VERIF_DUP_PROPS").unwrap_or_default().split(',').map(|s| s.to_string()).collect();
             let mut i = shard;
             while i < count {
@@ -142,12 +164,21 @@ fn main() {
                 if rng.chance(1, 12) && dup_props.iter().any(|p| p == prop) {
                     if let Some(d) = dup_variant(&input, &mut rng) { input = d; }
                 }
+                // one case in ten is run at a tiny or huge dyadic scale (props listed in VERIF_SCALE_PROPS): all input
+                // coordinates times 2^k on both sides; only if every number of the case stays far from the range limits
+                if rng.chance(1, 10) && scale_props.iter().any(|p| p == prop) && scale_safe(&input) {
+                    let k = *rng.pick(&[-60i32, -40, -30, -27, -10, -8, 27, 40]);
+                    input = format!("SC {} {}", k, input);
+                }
                 // one case in eight with a zero coordinate is run in a negative-zero spelling
                 if rng.chance(1, 8) && input.split(' ').any(|t| t == "0") {
                     input = format!("NZ {} {}", rng.next() % 1000, input);
                 }
+                // the input is on disk before the case is evaluated: a hang or abort is attributed to it by ./check
+                write!(out, "{} => ", input).unwrap();
+                out.flush().unwrap();
                 let o = eval(&input);
-                writeln!(out, "{} => {}", input, o).unwrap();
+                writeln!(out, "{}", o).unwrap();
                 i += nshards;
             }
         }
@@ -163,8 +194,10 @@ fn main() {
                     Some(p) => l[..p].trim(),
                     None => l,
                 };
+                write!(out, "{} => ", input).unwrap();
+                out.flush().unwrap();
                 let o = eval(input);
-                writeln!(out, "{} => {}", input, o).unwrap();
+                writeln!(out, "{}", o).unwrap();
             }
         }
         _ => {
